@@ -10,7 +10,7 @@ EXTRA = {
  "C01": "  Syscall-name lookups (as the tracer makes them, x32 numbers included) are issued between the builds.",
  "C02": "  Pathnames also go through the program's own descriptor links (/proc/self/fd/N, /dev/fd/N) whose targets are longer than 64 bytes.",
  "C03": "  The configured ban error changes from batch to batch within one process.",
- "C04": "  Also a launcher whose real ids differ from its effective ids.  Containers whose program runs under a generated credential (the ids inside are the configured ones); eight goroutines launching with different explicit id mappings at the same time; the blocked-signal set of the start state shows through C09.",
+ "C04": "  Also a launcher whose real ids differ from its effective ids.  Containers whose program runs under a generated credential (the ids inside are the configured ones); eight goroutines launching with different explicit id mappings at the same time; the blocked-signal set of the start state shows through C09.  Launch/IdMap.v: the text written to uid_map / gid_map (formatIDMappings; the default mapping of the launcher's own id) with C04_idmap_text_reads_back (for every list of mappings the text, read as lines of three decimal fields, is exactly the configuration) and C04_idmap_text_injective; the texts of 7 real starts, taken from an strace of the launching thread, are compared with the model in Coq.",
  "C05": "  One base mount table is handed to two builders; a read-only bind whose source file system is read-only as a whole only during set-up is written to after the file system became writable again.  A masked directory must not accept new files; a policy installed twice.",
  "C06": "  Container launches also carry exec and cgroup descriptors together, and an interpreter script as the executable descriptor.",
  "C07": "  Also setgroups refused in a user namespace.  Histories of launches in one container (callback before / after exec, refusing, context cancelled beforehand): a configured callback is invoked exactly once before any exec result exists.",
